@@ -19,13 +19,15 @@ META = {
                   'enspara.msm.builders._apply_prior_counts', 'enspara.msm.builders._prinz_mle_py (bounded sweeps + final '
                   'normalisation)', 'enspara.msm.transition_matrices.eq_probs / eigenspectrum (selection + normalisation code)'],
     'bounds': {'quick': 'dense ndarray counts, n<=3, real non-negative symbolic entries, rows with positive sum (zero rows '
-                        'allowed for the row-normalisation clause), symbolic prior counts >= 0; MLE: max_iter=1 sweep at n=2',
+                        'allowed for the row-normalisation clause), symbolic prior counts >= 0; MLE: max_iter=1 sweep at n=2; '
+                        'normalize/transpose on each of the 7 scipy.sparse containers with integer and float counts, n=2 full and '
+                        'n=3 tridiagonal, with/without populations, with prior counts',
                'thorough': 'n<=4 for normalize/transpose; MLE one sweep n<=3, two sweeps n=2'},
     'stubs': ['scipy.linalg.eig = Perron contract (one eigenvalue 1 with eigenvector c*pi, arbitrary order/scale, others '
-              'arbitrary with smaller real part)', 'sqrt = r>=0 & r*r=x; log uninterpreted'],
+              'arbitrary with smaller real part)', 'sqrt = r>=0 & r*r=x; log uninterpreted', 'scipy.sparse classes = symbolic shadow symnp/sparse.py (result formats, element types, copy/share rules of the operations used; np.matrix results as 2-D arrays; stored pattern of a matrix built from dense = cells that are not the constant zero); validated against the installed scipy by the `sparse-shadow-conformance` job on every run; replays run the real scipy classes'],
     'assumptions': ['exact real arithmetic', 'counts irreducible where a stationary vector is requested (Perron contract)'],
-    'outside': ['scipy.sparse / np.matrix container clauses (csr, csc, coo, lil, dok, dia, bsr): compiled containers cannot '
-                'carry solver terms', 'float rounding', 'convergence of the MLE iteration (see C12)'],
+    'outside': ['builders.mle on sparse input (np.matrix arithmetic inside _prinz_mle_py; raises on the pinned tree)',
+                'sparse matrices above the small sizes of the bound (eigs path for n>=1000)', 'float rounding', 'convergence of the MLE iteration (see C12)'],
 }
 
 
